@@ -34,6 +34,16 @@ impl Item {
 
 pub type Grammar = Vec<Item>;
 
+/// The same layout with the generator conventions `Og` / `O~` read as plain optional items: texts that are optional in
+/// the documented layout but ambiguous for a membership oracle.  For properties about every ACCEPTED text (C02) the
+/// ambiguity does not matter.
+pub fn loosen(g: &Grammar) -> Grammar {
+    g.iter().map(|it| match it {
+        Item::F { base, letters, occ } => Item::F { base: base.clone(), letters: letters.clone(), occ: if matches!(occ, Occ::OGen | Occ::OAmb) { Occ::O } else { occ.clone() } },
+        Item::Seq { items, min, max, hard } => Item::Seq { items: loosen(items), min: *min, max: *max, hard: *hard },
+    }).collect()
+}
+
 fn parse_items(s: &str) -> Vec<Item> {
     // split at top-level ';'
     let mut items = Vec::new();
@@ -187,6 +197,11 @@ fn extras() -> Vec<(&'static str, &'static str)> {
         ("71F", "USD10,00"), ("71G", "USD5,00"), ("72", "/INS/CHASUS33"), ("75", "QUERY TEXT"), ("76", "ANSWER TEXT"), ("77A", "NARRATIVE"),
         ("77B", "/ORDERRES/DE"), ("77T", "ENVELOPE CONTENTS"), ("79", "NARRATIVE LINE"),
     ]
+}
+
+/// one canonical content per tag (the hand-written list above)
+pub fn extra_content(tag: &str) -> Option<&'static str> {
+    extras().into_iter().find(|(t, _)| *t == tag).map(|(_, c)| c)
 }
 
 pub fn build_pool(draws: usize) -> Pool {
